@@ -157,6 +157,12 @@ def run(ctx):
         add('householder_matrix', f'a flat {n}, v flat {n + 1}', hv((n,), (n + 1,), fn='householder_matrix'), D(sd((n,)), sd((n + 1,), 'DReal')), 'reject')
         add('householder_vector', f'a flat {n}, v complex flat {n}', hv((n,), (n,), 'complex'), D(sd((n,)), sd((n,), 'DComplex')), 'reject')
         add('householder_vector', f'a flat {n}, v quaternion flat {n}', hv((n,), (n,), 'quat'), D(sd((n,)), sd((n,), 'DQuat')), 'reject')      # np.imag of a quaternion array is identically zero: the dtype is what the guard has to test
+    # truncated Q-SVD: R must not exceed min(m, n)
+    qsvd_mod = importlib.import_module('decomp.qsvd')
+    for (mm, nn) in ((3, 3), (4, 2), (2, 4), (1, 3), (1, 1)):
+        Xq = Qm(mm, nn)
+        for R in range(0, max(mm, nn) + 2):
+            add('classical_qsvd', f'{mm}x{nn}, R={R}', (lambda Xq=Xq, R=R: qsvd_mod.classical_qsvd(Xq, R)), D(f'(mkarr true DQuat 2 {mm} {nn} 0)', n1=R), 'accept' if R <= min(mm, nn) else 'reject')
     # the two enumerated options of the complex-adjoint power iteration, on Hermitian and on generic input
     for mname, Mx in (('hermitian', Qm(3, 3, herm=True)), ('generic', Qm(3, 3))):
         for ef in ('complex', 'quaternion', 'foo', '', 'Complex'):
